@@ -40,6 +40,7 @@ From PL.C18 Require Import ModelTermEq GenCfg.
 Import ListNotations.
 Open Scope string_scope.
 Definition NH := not_hash_ignores_functor.
+Definition TA := typed_atoms.
 """
 
 CLASSES = ("Term", "AggTerm", "Var", "Constant", "Clause", "Or", "And", "Not")
@@ -73,6 +74,20 @@ EXPECTED_BODIES = {
         "return (type(self) == type(other) and self.heads == other.heads and self.body == other.body)",
 }
 NOT_HASH_REPAIRED = 'return hash(("\\\\+", self.child))'
+# fixes/C18-constant-var-eq.patch
+TYPED_BODIES = {
+    ("Var", "__eq__"): """
+if isinstance(other, Term):
+    return isinstance(other, Var) and self.name == other.name
+return str(other) == str(self)
+""",
+    ("Constant", "__eq__"): """
+if isinstance(other, Term):
+    return (isinstance(other, Constant) and type(self.functor) == type(other.functor)
+            and self.functor == other.functor)
+return str(self) == str(other)
+""",
+}
 
 
 def read_class_table():
@@ -99,6 +114,7 @@ def read_class_table():
     if set(family) != expect:
         raise RuntimeError("C18 translator: Term family is %r, the model knows %r" % (sorted(family), sorted(expect)))
     nh = False
+    typed = set()
     for name in family:
         methods = {m.name: m for m in classes[name].body if isinstance(m, ast.FunctionDef)}
         for special in ("__eq__", "__hash__", "__ne__", "__str__", "__bool__", "__len__"):
@@ -120,7 +136,10 @@ def read_class_table():
             if key in EXPECTED_BODIES:
                 if not has:
                     raise RuntimeError("C18 translator: %s.%s disappeared; the model must be revised" % key)
-                if _body_dump(methods[special]) != _src(EXPECTED_BODIES[key]):
+                dump = _body_dump(methods[special])
+                if key in TYPED_BODIES and dump == _src(TYPED_BODIES[key]):
+                    typed.add(key)
+                elif dump != _src(EXPECTED_BODIES[key]):
                     raise RuntimeError("C18 translator: body of %s.%s is not the modelled one: %s"
                                        % (name, special, ast.unparse(methods[special])))
             elif key == ("Not", "__hash__"):
@@ -132,7 +151,10 @@ def read_class_table():
             elif has:
                 raise RuntimeError("C18 translator: %s.%s is defined but not modelled" % key)
     # Not.__init__ must keep dropping op_spec (the printer model relies on nested Not printing generically)
-    return {"nh": nh}
+    if typed and typed != set(TYPED_BODIES):
+        raise RuntimeError("C18 translator: only one of Var.__eq__ / Constant.__eq__ is repaired (%r); the model "
+                           "knows both-pinned and both-repaired" % sorted(typed))
+    return {"nh": nh, "ta": bool(typed)}
 
 
 def generate(ctx):
@@ -140,9 +162,12 @@ def generate(ctx):
     text = ("(* GENERATED by harness/props/C18.py from the AST of problog/logic.py (class table of the Term family\n"
             "   checked against the model's dispatch table; bodies of the Var/Constant/Object/AnnotatedDisjunction\n"
             "   overrides checked verbatim). *)\n"
-            "Definition not_hash_ignores_functor : bool := %s.\n" % ("true" if cfg["nh"] else "false"))
+            "Definition not_hash_ignores_functor : bool := %s.\n"
+            "Definition typed_atoms : bool := %s.\n"
+            % ("true" if cfg["nh"] else "false", "true" if cfg["ta"] else "false"))
     ctx.generate("C18/GenCfg.v", text)
     ctx.cov["not_hash_repaired"] = cfg["nh"]
+    ctx.cov["var_constant_eq_repaired"] = cfg["ta"]
     return cfg
 
 
@@ -479,7 +504,10 @@ class Item(object):
         self.bp = decode(obj, self.flags)
         if self.bp[0] not in ("T", "AD"):
             raise Skip("not a Term object")
-        self.s = str(obj)
+        try:
+            self.s = str(obj)
+        except Exception as e:      # e.g. Clause(<int head>, ...): Clause.__repr__ needs head.functor; not a C18 matter
+            raise Skip("str-raises:%s" % type(e).__name__)
         if not all(32 <= ord(c) < 127 for c in self.s):
             raise Skip("non-ascii str")
         self.key = hash_key(obj)
@@ -844,7 +872,7 @@ def observe_pair(ctx, a, b, finds, cases, case_meta, seen_pairs):
     emit = nontrivial or ctx.tier == "thorough" or a.idx == b.idx or ctx.rng.random() < 0.2
     if emit and (a.idx, b.idx) not in seen_pairs:
         seen_pairs.add((a.idx, b.idx))
-        parts = ["Bool.eqb (eq_m_s repr_m s%d s%d t%d t%d) %s" % (a.idx, b.idx, a.idx, b.idx, vf.coq_bool(eq))]
+        parts = ["Bool.eqb (eq_cfg_s TA (repr_m TA) s%d s%d t%d t%d) %s" % (a.idx, b.idx, a.idx, b.idx, vf.coq_bool(eq))]
         if un is not None:
             parts.append("Bool.eqb (unify_ident t%d t%d) %s" % (a.idx, b.idx, vf.coq_bool(un)))
         # hash keys agree in the model iff the captured keys agree
@@ -911,25 +939,23 @@ def run_pairs(ctx):
         observe_pair(ctx, b, a, finds, cases, meta, seen)
 
     # ---- random terms and near copies
-    nrand = ctx.n(700, 15000)
+    nrand = ctx.n(700, 8000)
     rnd = []
     for _ in range(nrand):
         bp = rand_bp(rng, rng.choice([1, 2, 2, 3]))
-        try:
-            a = collect(ctx, items, build(bp), "ctor:random")
-        except Exception:
-            ctx.count("build_failed")
-            continue
-        if a is None:
-            continue
         m = bp
         for _ in range(rng.choice([1, 1, 2])):
             m = mutate(rng, m)
         try:
-            b = collect(ctx, items, build(m), "ctor:mutant")
+            oa, ob = build(bp), build(m)
         except Exception:
-            ctx.count("build_failed")
+            ctx.count("constructor_rejected")
             continue
+        # anything raised by str()/hash() of a constructed term propagates (reported as a broken check)
+        a = collect(ctx, items, oa, "ctor:random")
+        if a is None:
+            continue
+        b = collect(ctx, items, ob, "ctor:mutant")
         if b is None:
             continue
         c = collect(ctx, items, build(bp), "ctor:copy")   # structurally identical, distinct object
@@ -989,7 +1015,7 @@ def run_pairs(ctx):
         parts = ["wf t%d" % it.idx,
                  "hkey_eqb (hk NH t%d) %s" % (it.idx, coq_key(it.key))]
         if it.in_repr_fragment():
-            parts.append("String.eqb (repr_m t%d) s%d" % (it.idx, it.idx))
+            parts.append("String.eqb (repr_m TA t%d) s%d" % (it.idx, it.idx))
             ctx.count("repr_checked")
         cases.append(" && ".join("(%s)" % p for p in parts))
         meta.append(("term", it, None))
@@ -1182,7 +1208,9 @@ def run(ctx):
         "(Term.__eq__ raises AttributeError on two distinct nested ADs)",
     ]
     generate(ctx)
-    ctx.prove("C18/Props.v")
+    proved = ctx.prove("C18/Props.v")
+    if proved and ctx.tier == "thorough" and not ctx.replay:
+        ctx.coqchk("PL.C18.Props")
     if ctx.replay:
         run_replay(ctx, ctx.replay.get("replay", {}))
         return
